@@ -108,7 +108,7 @@ def check_case(ctx, case):
         C0 = ref_average([(1.0, to4(base), m.orientations[-1], m.fractions[-1])], None)
         ortho = False
     ctx.cls(f"kind={kind}")
-    out0 = dg.elasticity_components(np.array([C0]))
+    out0 = dg.elasticity_components(ctx.buf("Cstack", np.array([C0])) if case["seed"] % 2 else np.array([C0]))
     K, G = KG(C0)
     ok = abs(out0["bulk_modulus"][0] - K) <= 1e-9 * abs(K) and abs(out0["shear_modulus"][0] - G) <= 1e-9 * abs(G)
     ctx.check("moduli_equal_voigt_invariants", bool(ok), case, K=float(out0["bulk_modulus"][0]), Kexp=K, G=float(out0["shear_modulus"][0]), Gexp=G)
@@ -133,7 +133,7 @@ def check_case(ctx, case):
         if kind in ("builtin", "ortho") and j == 0:
             qk, Q = "haar", gen.haar(rng)
         C1 = rotate6(C0, Q)
-        out1 = dg.elasticity_components(np.array([C1]))
+        out1 = dg.elasticity_components(ctx.buf("Cstack", np.array([C1])) if case["seed"] % 2 else np.array([C1]))
         if conditioned:
             dmax = max(abs(float(out1[k][0]) - float(out0[k][0])) for k in KEYS[2:])
             dmod = max(abs(float(out1[k][0]) - float(out0[k][0])) / abs(float(out0[k][0])) for k in KEYS[:2])
